@@ -35,6 +35,20 @@ REPLACE_W = {"replace": 10, "divide_loop": 6, "cut_loop": 2, "unroll_loop": 2, "
              "extract_subproc": 3, "simplify": 2, "reorder_loops": 2, "fission": 2, "set_memory": 1}
 
 
+# primitives with non-trivial semantic side conditions get more of the draws in the semantic checks;
+# pure annotation changes (their semantics is C19 territory) fewer
+SEM_W = {
+    "fission": 3, "fuse": 3, "reorder_stmts": 3, "reorder_loops": 3, "lift_scope": 2, "stage_mem": 3, "resize_dim": 3,
+    "expand_dim": 3, "divide_loop": 2, "cut_loop": 2, "join_loops": 2, "shift_loop": 2, "remove_loop": 2, "add_loop": 2,
+    "inline_assign": 2, "merge_writes": 2, "fold_into_reduce": 2, "lift_reduce_constant": 2, "sink_alloc": 2, "lift_alloc": 2,
+    "delete_buffer": 2, "reuse_buffer": 2, "unroll_buffer": 2, "bind_expr": 2, "delete_pass": 1, "eliminate_dead_code": 2,
+    "specialize": 2, "rewrite_expr": 2, "mult_loops": 2, "divide_with_recompute": 2, "replace": 2, "call_eqv": 2, "inline": 2,
+    "extract_subproc": 2, "divide_dim": 2, "mult_dim": 2, "rearrange_dim": 2, "inline_window": 2, "unroll_loop": 2, "split_write": 2,
+    "rename": 0.3, "make_instr": 0.3, "set_memory": 0.5, "set_precision": 0.3, "set_window": 0.5, "insert_pass": 0.5,
+    "parallelize_loop": 0.5, "commute_expr": 0.5, "left_reassociate_expr": 0.5, "insert_noop_call": 0.5,
+}
+
+
 def cfg_C07(rs):
     return swarm(rs, {"checks": {"pure": True}, "props": ["C07"], "fault_rates": [0.0, 0.25, 0.45], "compile_rate": 0.15,
                       "compile_fault_rate": 0.6})
@@ -47,12 +61,12 @@ def cfg_C06(rs):
 
 def cfg_C01(rs):
     return swarm(rs, {"checks": {"sem": True}, "props": ["C01"], "fault_rates": [0.0, 0.2, 0.35], "fault_kinds": ["F1", "F2", "F3c"],
-                      "call_eqv_macro": 0.1})
+                      "call_eqv_macro": 0.1, "weights": SEM_W})
 
 
 def cfg_C04(rs):
     return swarm(rs, {"checks": {"sem": True, "valid": True}, "props": ["C04"], "fault_rates": [0.0, 0.2], "compile_rate": 0.05,
-                      "fault_kinds": ["F1", "F2", "F3c"]})
+                      "fault_kinds": ["F1", "F2", "F3c"], "weights": SEM_W})
 
 
 def cfg_C10(rs):
@@ -92,6 +106,6 @@ def harvest_cfgs_for(prop):
 
 
 BUDGETS = {
-    "quick": {"runs": 4000, "budget_s": 60, "selftest": 16, "harvest_wall": 400},
+    "quick": {"runs": 12000, "budget_s": 60, "selftest": 16, "harvest_wall": 400},
     "thorough": {"runs": 40000, "budget_s": 1200, "selftest": 40, "harvest_wall": 2400},
 }
